@@ -731,6 +731,12 @@ impl<'a> Sem<'a> {
             Ty::List(el) => {
                 let el = (**el).clone();
                 match self.rng.below(if deep { 2 } else { 8 }) {
+                    0 if matches!(el, Ty::Int | Ty::Str | Ty::Class(_)) && self.rng.chance(1, 3) && self.on("typed-empty-list") => {
+                        // the empty list with its element type spelled out
+                        self.w("[]<");
+                        self.write_type(&el);
+                        self.w(">");
+                    }
                     0 | 1 | 2 => {
                         let k = 1 + self.rng.below(3);
                         self.w("[");
@@ -739,6 +745,9 @@ impl<'a> Sem<'a> {
                                 self.w(", ");
                             }
                             self.value(&el, depth + 1);
+                        }
+                        if self.rng.chance(1, 8) && self.on("trailing-comma") {
+                            self.w(",");
                         }
                         self.w("]");
                     }
@@ -1298,9 +1307,12 @@ impl<'a> Sem<'a> {
             if i > 0 {
                 self.w(", ");
             }
-            let ty = match self.rng.below(4) {
-                0 => Ty::Str,
-                1 => Ty::Bit,
+            let ty = match self.rng.below(12) {
+                0..=2 => Ty::Str,
+                3..=5 => Ty::Bit,
+                6 if self.on("template-arg-types") => Ty::Bits(4),
+                7 if self.on("template-arg-types") => Ty::List(Box::new(Ty::Int)),
+                8 if self.on("template-arg-types") => Ty::List(Box::new(Ty::Str)),
                 _ => Ty::Int,
             };
             self.write_type(&ty);
@@ -1605,6 +1617,32 @@ impl<'a> Sem<'a> {
         self.stmt_end("Def", start, Some(decl), top && !in_multiclass, ds);
     }
 
+    /// `def : K<args>;` - a record without a name (no declaration, no outline entry; a foldable statement)
+    fn anon_def_stmt(&mut self) {
+        if self.classes.is_empty() || !self.on("anonymous-def") {
+            return self.def_stmt("", false);
+        }
+        let start = self.stmt_begin();
+        self.w("def");
+        let saved_base = self.rec_base.replace(self.scopes.len());
+        let saved_t = std::mem::take(&mut self.rec_targs);
+        let saved_f = std::mem::take(&mut self.rec_fields);
+        let mut parents = self.parent_list();
+        if parents.is_empty() {
+            let c = self.classes[self.rng.below(self.classes.len())].name.clone();
+            self.w(" : ");
+            self.class_ref(&c, 1, false);
+            parents.push(c);
+        }
+        self.rec_targs = saved_t;
+        self.rec_fields = saved_f;
+        self.rec_base = saved_base;
+        self.w(";");
+        let top = self.depth == 0;
+        let ds = self.in_defset;
+        self.stmt_end("Def", start, None, top, ds);
+    }
+
     fn defvar_stmt(&mut self) {
         self.w("defvar ");
         let shadow = self.rng.chance(1, 6) && self.scopes.len() > 1;
@@ -1667,7 +1705,14 @@ impl<'a> Sem<'a> {
         // statements allowed inside foreach / if / let / defset blocks
         let deep = self.depth >= 3;
         match self.rng.below(if deep { 4 } else { 9 }) {
-            0 | 1 | 2 => self.def_stmt("", false),
+            0 | 1 => self.def_stmt("", false),
+            2 => {
+                if self.rng.chance(1, 3) && self.in_defset.is_none() {
+                    self.anon_def_stmt()
+                } else {
+                    self.def_stmt("", false)
+                }
+            }
             3 => self.defvar_stmt(),
             4 => self.foreach_stmt(),
             5 => self.if_stmt(),
@@ -2081,7 +2126,13 @@ impl<'a> Sem<'a> {
     fn top_statement(&mut self) {
         match self.rng.weighted(&[6, 6, 2, 2, 2, 2, 2, 2, 2, 1, 1]) {
             0 => self.class_stmt(),
-            1 => self.def_stmt("", false),
+            1 => {
+                if self.rng.chance(1, 8) {
+                    self.anon_def_stmt()
+                } else {
+                    self.def_stmt("", false)
+                }
+            }
             2 => self.defvar_stmt(),
             3 => self.foreach_stmt(),
             4 => self.if_stmt(),
